@@ -3,7 +3,7 @@
 const path = require('path')
 const { encodeMap } = require('./smap')
 
-const SITE_KINDS = ['body', 'operand', 'multiline', 'arrow', 'method', 'eval', 'callback', 'msg-newline', 'throw', 'msg-at']
+const SITE_KINDS = ['body', 'operand', 'multiline', 'arrow', 'method', 'eval', 'callback', 'msg-newline', 'throw', 'helper', 'msg-at']
 
 // returns {text, sites:[{k, kind, fn, line, cbLine?}], kind, omap?}
 function genVersion (rng, fi, vi, kind, o) {
@@ -11,10 +11,11 @@ function genVersion (rng, fi, vi, kind, o) {
   const sites = []
   const add = (l) => { lines.push(l); return lines.length } // returns 1-based line number
   const plain = kind === 'plain'
-  const nHeader = rng.range(0, 6)
-  for (let i = 0; i < nHeader; i++) add(rng.chance(1, 2) ? `// header comment ${i} of f${fi} v${vi}` : '')
+  const nHeader = rng.range(0, 10)
+  for (let i = 0; i < nHeader; i++) add(rng.chance(2, 3) ? `// header comment ${i} of f${fi} v${vi}: helper code that a transpiler put in front of the module` : '')
   if (rng.chance(1, 3)) add("'use strict'")
   add('function keep (a, b) { return b }')
+  const mkErrLine = add('function mkErr (m) { return new Error(m) }')
   const nSites = rng.range(2, 6)
   let kinds = []
   for (let i = 0; i < nSites; i++) {
@@ -46,6 +47,16 @@ function genVersion (rng, fi, vi, kind, o) {
           add('  return e')
         }
         add('}')
+        break
+      }
+      case 'helper': {
+        // the Error is created by a helper defined at the top of the file (possibly in a region the
+        // original map does not cover); the site frame is the second frame
+        add(`function ${N}c (x) {`)
+        site.cbLine = add(plain ? "  return mkErr('helper')" : "  return mkErr(x + 'h')")
+        add('}')
+        site.entry = `${N}c`
+        site.line = 0
         break
       }
       case 'operand': {
@@ -117,14 +128,16 @@ function genVersion (rng, fi, vi, kind, o) {
     const nLines = lines.length + 2
     const mult = rng.range(2, 3); const off = rng.range(3, 40)
     const toks = []
-    for (let L = 0; L < nLines; L++) toks.push({ gl: L, gc: 0, src: 0, sl: L * mult + off, sc: 0, name: null })
+    // a leading region without mappings (helper code a transpiler prepended) in some maps
+    const gap = rng.chance(1, 3) ? rng.range(1, Math.max(1, mkErrLine + 1)) : 0
+    for (let L = gap; L < nLines; L++) toks.push({ gl: L, gc: 0, src: 0, sl: L * mult + off, sc: 0, name: null })
     const source = rng.pick(['../ts/orig.ts', `src/f${fi}.ts`, `f${fi}v${vi}.ts`])
     const sourceRoot = rng.pick([undefined, '', 'root', 'root/'])
     const m = { file: path.basename(o.file), sources: [source], names: [], toks }
     if (sourceRoot !== undefined) m.sourceRoot = sourceRoot
     const json = encodeMap(m)
     const rooted = sourceRoot ? sourceRoot.replace(/\/$/, '') + '/' + source : source
-    v.omap = { json, mult, off, source: rooted, mode: o.omap }
+    v.omap = { json, mult, off, source: rooted, mode: o.omap, gap }
     if (o.omap === 'inline') {
       lines.push('//# sourceMappingURL=data:application/json;base64,' + Buffer.from(json).toString('base64'))
     } else {
